@@ -88,6 +88,9 @@ BENIGN = [
  ('reverse_compact_all_sliced', 'src/solver/chordal/decomp/reverse_compact.rs', None, None),  # handled specially: all four vectors viewed through sub-slices
  ('equilibrate_rectify_scratch', D + 'problemdata.rs', '        if cones.rectify_equilibration(ework, e) {\n            // only rescale again if some cones were rectified\n            scale_data(P, A, q, b, None, ework);\n            e.hadamard(ework);\n        }',
   '        let mut delta = vec![T::one(); e.len()];\n        if cones.rectify_equilibration(&mut delta, e) {\n            // only rescale again if some cones were rectified\n            scale_data(P, A, q, b, None, &delta);\n            e.hadamard(&delta);\n        }'),
+ ('pow_dual_membership_reordered', R + 'core/cones/powcone.rs', '                (α * two) * (z[0] / α).logsafe()\n                    + (T::one() - α) * (z[1] / (T::one() - α)).logsafe() * two,', '                two * (T::one() - α) * (z[1] / (T::one() - α)).logsafe()\n                    + (z[0] / α).logsafe() * (two * α),'),
+ ('exp_correction_commuted', R + 'core/cones/expcone.rs', '        η[2] = -z[0] / z[2]; // gradient of ψ', '        η[2] = -(z[0] / z[2]); // gradient of ψ'),
+ ('merge_loop_break_flag', 'src/solver/chordal/merge/mod.rs', '            if t.n_cliques == 1 {\n                break;\n            }', '            if 1 == t.n_cliques {\n                break;\n            }'),
  ('refactor_comment_and_let', 'src/qdldl/qdldl.rs', '        self.is_symbolic = false;\n        _factor(', '        self.is_symbolic = false;\n        let _n = self.D.len();\n        _factor('),
 ]
 
